@@ -39,7 +39,8 @@ EXPR = {"e":"name","n":x}      x            (fetched uncalled)
 """
 import re
 
-BLOCK_KINDS = ('if', 'unless', 'in', 'with', 'let', 'try', 'raise', 'comment')
+BLOCK_KINDS = ('if', 'unless', 'in', 'with', 'let', 'try', 'raise', 'comment',
+               'tree')
 
 
 # ----------------------------------------------------------- expressions
@@ -366,6 +367,14 @@ class Printer:
             self.block1(n, 'raise', attrs, n['body'])
         elif k == 'comment':
             self.block1(n, 'comment', [], n['body'])
+        elif k == 'tree':
+            attrs = _ref_attrs(sx, st, n['ref'], pin=self.pin(n)) \
+                if n.get('ref') else []
+            opts = _opts(sx, st, n.get('opts', ()), shuffle=bool(attrs))
+            if not attrs and opts and '=' not in opts[0]:
+                # a valueless flag may not come first
+                opts.sort(key=lambda o: '=' not in o)
+            self.block1(n, 'tree', attrs + opts, n['body'])
         elif k == 'rawtag':
             # escape hatch for checks that print a tag themselves
             self.emit('tag', n['src'][sx], ('inline', 'raw'))
